@@ -22,8 +22,8 @@ FASTS = ["PeriodDetectFast", "PowerOnDetectFast", "FactoryDetectFast"]
 XSTAR = Decimal("16.85997421948231699950996604")
 
 
-def fcfg(W, S, C, F=99, rf="TRUE", lk="TRUE", de="TRUE", se="TRUE", live=False, inv=True):
-    s = "CONSTANTS W=%d S=%d C=%d FailAt=%d PartialErr=FALSE UseReadFull=%s UseLock=%s DoneOnError=%s SurfaceError=%s\n" % (W, S, C, F, rf, lk, de, se)
+def fcfg(W, S, C, F=99, rf="TRUE", lk="TRUE", de="TRUE", se="TRUE", live=False, inv=True, tr="FALSE", ns="FALSE"):
+    s = "CONSTANTS W=%d S=%d C=%d FailAt=%d PartialErr=FALSE UseReadFull=%s UseLock=%s DoneOnError=%s SurfaceError=%s Transient=%s NonSticky=%s\n" % (W, S, C, F, rf, lk, de, se, tr, ns)
     s += "SPECIFICATION Spec\nCHECK_DEADLOCK FALSE\n"
     if inv:
         s += "INVARIANTS TypeOK JudgedSet FreshOnly NoNegativeWG MutexOK FaultMeansFalse NoFaultNoErr NeverReadsBeyond DecideAfterBarrier\nPROPERTY SlotOwnership\n"
@@ -159,7 +159,7 @@ def run(tier):
     for Wm, ts in [(2, "0-1"), (3, "0-2"), (4, "0-3")]:
         jobs, meta = [], {}
         for S, fns in [(20, ["PeriodDetectFast", "PowerOnDetectFast"]), (50, ["FactoryDetectFast"])]:
-            cfg = ("CONSTANTS W=%d S=%d C=3 FailAt=99 PartialErr=FALSE UseReadFull=TRUE UseLock=TRUE DoneOnError=TRUE SurfaceError=TRUE\n"
+            cfg = ("CONSTANTS W=%d S=%d C=3 FailAt=99 PartialErr=FALSE UseReadFull=TRUE UseLock=TRUE DoneOnError=TRUE SurfaceError=TRUE Transient=FALSE NonSticky=FALSE\n"
                    "INIT SInit\nNEXT SNext\nCHECK_DEADLOCK FALSE\n" % (Wm, S))
             r = vlib.run_tlc("SimFast", cfg, workers=1, simulate="num=%d" % nsim, depth=3000, timeout=600, tlc_args=["-seed", str(vlib.seed() + 17 * Wm + S)])
             if r.rc != 0:
